@@ -43,7 +43,7 @@ func init() {
 }
 
 // lib-twins: the Go library functions Verify / BasicAuth call, on given byte strings (hex in, hex out).
-type ltOut struct {
+type arLtOut struct {
 	Trim     string `json:"trim"`
 	IntOK    bool   `json:"int_ok"`
 	Int      int64  `json:"int"`
@@ -61,14 +61,14 @@ func libTwins(in []byte) (any, error) {
 	if err := json.Unmarshal(in, &vals); err != nil {
 		return nil, err
 	}
-	out := make([]ltOut, 0, len(vals))
+	out := make([]arLtOut, 0, len(vals))
 	for _, hv := range vals {
 		b, err := hex.DecodeString(hv)
 		if err != nil {
 			return nil, err
 		}
 		v := string(b)
-		o := ltOut{Trim: hex.EncodeToString([]byte(strings.TrimSpace(v)))}
+		o := arLtOut{Trim: hex.EncodeToString([]byte(strings.TrimSpace(v)))}
 		if n, err := strconv.ParseInt(v, 10, 64); err == nil {
 			o.IntOK, o.Int = true, n
 		}
@@ -87,7 +87,7 @@ func libTwins(in []byte) (any, error) {
 }
 
 // compile-check: real config.Parse + config.Compile on each text.
-type ccOut struct {
+type arCcOut struct {
 	ParseOK   bool     `json:"parse_ok"`
 	CompileOK bool     `json:"compile_ok"`
 	Errors    []string `json:"errors"`
@@ -98,15 +98,15 @@ func compileCheck(in []byte) (any, error) {
 	if err := json.Unmarshal(in, &texts); err != nil {
 		return nil, err
 	}
-	out := make([]ccOut, 0, len(texts))
+	out := make([]arCcOut, 0, len(texts))
 	for _, t := range texts {
 		cfg, err := config.Parse([]byte(t))
 		if err != nil {
-			out = append(out, ccOut{Errors: []string{err.Error()}})
+			out = append(out, arCcOut{Errors: []string{err.Error()}})
 			continue
 		}
 		_, res := config.Compile(cfg)
-		out = append(out, ccOut{ParseOK: true, CompileOK: res.OK, Errors: res.Errors})
+		out = append(out, arCcOut{ParseOK: true, CompileOK: res.OK, Errors: res.Errors})
 	}
 	return out, nil
 }
@@ -114,13 +114,13 @@ func compileCheck(in []byte) (any, error) {
 // ---------------------------------------------------------------------------
 // crypto-vectors: Go's sha256 / hmac-sha256 on given inputs (hex)
 
-type cvIn struct {
+type arCvIn struct {
 	Sha  []string    `json:"sha"`
 	Hmac [][2]string `json:"hmac"`
 }
 
 func cryptoVectors(in []byte) (any, error) {
-	var c cvIn
+	var c arCvIn
 	if err := json.Unmarshal(in, &c); err != nil {
 		return nil, err
 	}
@@ -258,7 +258,7 @@ type arScenOut struct {
 // ---------------------------------------------------------------------------
 // store wrapper
 
-type recStore struct {
+type arRecStore struct {
 	queue.Store
 	mu     sync.Mutex
 	failAt int
@@ -266,7 +266,7 @@ type recStore struct {
 	calls  []arEnq
 }
 
-func envOut(e queue.Envelope, ok bool) arEnq {
+func arEnvOut(e queue.Envelope, ok bool) arEnq {
 	s := sha256.Sum256(e.Payload)
 	h := map[string]string{}
 	for k, v := range e.Headers {
@@ -275,7 +275,7 @@ func envOut(e queue.Envelope, ok bool) arEnq {
 	return arEnq{Route: e.Route, Target: e.Target, PayloadSHA: hex.EncodeToString(s[:]), PayloadLen: len(e.Payload), Headers: h, OK: ok}
 }
 
-func (s *recStore) Enqueue(env queue.Envelope) error {
+func (s *arRecStore) Enqueue(env queue.Envelope) error {
 	s.mu.Lock()
 	s.count++
 	fail := s.failAt > 0 && s.count == s.failAt
@@ -287,18 +287,18 @@ func (s *recStore) Enqueue(env queue.Envelope) error {
 		err = s.Store.Enqueue(env)
 	}
 	s.mu.Lock()
-	s.calls = append(s.calls, envOut(env, err == nil))
+	s.calls = append(s.calls, arEnvOut(env, err == nil))
 	s.mu.Unlock()
 	return err
 }
 
-func (s *recStore) arm(failAt int) {
+func (s *arRecStore) arm(failAt int) {
 	s.mu.Lock()
 	s.failAt, s.count, s.calls = failAt, 0, nil
 	s.mu.Unlock()
 }
 
-func (s *recStore) taken() []arEnq {
+func (s *arRecStore) taken() []arEnq {
 	s.mu.Lock()
 	defer s.mu.Unlock()
 	out := append([]arEnq{}, s.calls...)
@@ -308,7 +308,7 @@ func (s *recStore) taken() []arEnq {
 // ---------------------------------------------------------------------------
 // scripted auth service
 
-type fwdService struct {
+type arFwdService struct {
 	mu       sync.Mutex
 	behave   string
 	seen     []arFwdSeen
@@ -319,8 +319,8 @@ type fwdService struct {
 	release  chan struct{}
 }
 
-func newFwdService() (*fwdService, error) {
-	f := &fwdService{behave: "200", release: make(chan struct{})}
+func newArFwdService() (*arFwdService, error) {
+	f := &arFwdService{behave: "200", release: make(chan struct{})}
 	ln, err := net.Listen("tcp", "127.0.0.1:0")
 	if err != nil {
 		return nil, err
@@ -342,7 +342,7 @@ func newFwdService() (*fwdService, error) {
 	return f, nil
 }
 
-func (f *fwdService) set(b string) {
+func (f *arFwdService) set(b string) {
 	f.mu.Lock()
 	if b == "" {
 		b = "200"
@@ -352,13 +352,13 @@ func (f *fwdService) set(b string) {
 	f.mu.Unlock()
 }
 
-func (f *fwdService) take() []arFwdSeen {
+func (f *arFwdService) take() []arFwdSeen {
 	f.mu.Lock()
 	defer f.mu.Unlock()
 	return append([]arFwdSeen{}, f.seen...)
 }
 
-func (f *fwdService) handle(w http.ResponseWriter, r *http.Request) {
+func (f *arFwdService) handle(w http.ResponseWriter, r *http.Request) {
 	body, _ := io.ReadAll(r.Body)
 	f.mu.Lock()
 	b := f.behave
@@ -405,7 +405,7 @@ func (f *fwdService) handle(w http.ResponseWriter, r *http.Request) {
 
 type arRuntime struct {
 	rt      *app.VerifAuthRuntime
-	store   *recStore
+	store   *arRecStore
 	srv     *http.Server
 	addr    string
 	clock   atomic.Int64
@@ -413,18 +413,18 @@ type arRuntime struct {
 	records []*arParsed
 	seenIDs map[string]bool
 	cfgPath string
-	fwd     *fwdService
+	fwd     *arFwdService
 	nowHook atomic.Value // func() time.Time, overrides the plain clock when set (race step)
 }
 
-type teeBody struct {
+type arTeeBody struct {
 	rc  io.ReadCloser
 	rec *arParsed
 	buf []byte
 	mu  *sync.Mutex
 }
 
-func (t *teeBody) Read(p []byte) (int, error) {
+func (t *arTeeBody) Read(p []byte) (int, error) {
 	n, err := t.rc.Read(p)
 	t.mu.Lock()
 	t.buf = append(t.buf, p[:n]...)
@@ -435,7 +435,7 @@ func (t *teeBody) Read(p []byte) (int, error) {
 	t.mu.Unlock()
 	return n, err
 }
-func (t *teeBody) Close() error { return t.rc.Close() }
+func (t *arTeeBody) Close() error { return t.rc.Close() }
 
 func (a *arRuntime) ServeHTTP(w http.ResponseWriter, r *http.Request) {
 	rec := &arParsed{Method: r.Method, URLPath: r.URL.Path, Host: r.Host, Headers: map[string][]string{}}
@@ -457,7 +457,7 @@ func (a *arRuntime) ServeHTTP(w http.ResponseWriter, r *http.Request) {
 		rec.Allowed = a.rt.Ingress.AllowedMethodsFor(r, rec.CleanPath)
 	}
 	if r.Body != nil {
-		r.Body = &teeBody{rc: r.Body, rec: rec, mu: &a.recMu}
+		r.Body = &arTeeBody{rc: r.Body, rec: rec, mu: &a.recMu}
 	}
 	a.recMu.Lock()
 	a.records = append(a.records, rec)
@@ -510,7 +510,7 @@ func (a *arRuntime) close() {
 	}
 }
 
-func substCfg(text string, f *fwdService) string {
+func arSubstCfg(text string, f *arFwdService) string {
 	text = strings.ReplaceAll(text, "{{FWD}}", f.base)
 	text = strings.ReplaceAll(text, "{{FWD_CLOSED}}", f.closedLn)
 	return text
@@ -518,7 +518,7 @@ func substCfg(text string, f *fwdService) string {
 
 func (a *arRuntime) load(text string) (bool, string) {
 	tmp := a.cfgPath + ".tmp"
-	if err := os.WriteFile(tmp, []byte(substCfg(text, a.fwd)), 0o600); err != nil {
+	if err := os.WriteFile(tmp, []byte(arSubstCfg(text, a.fwd)), 0o600); err != nil {
 		return false, err.Error()
 	}
 	if err := os.Rename(tmp, a.cfgPath); err != nil {
@@ -526,7 +526,7 @@ func (a *arRuntime) load(text string) (bool, string) {
 	}
 	if a.rt == nil {
 		ms := queue.NewMemoryStore()
-		a.store = &recStore{Store: ms}
+		a.store = &arRecStore{Store: ms}
 		rt, err := app.VerifAuthNewRuntime(a.cfgPath, a.store)
 		if err != nil {
 			return false, err.Error()
@@ -600,7 +600,7 @@ func (a *arRuntime) newItems(max int) []arEnq {
 	}
 	out := []arEnq{}
 	for i := len(fresh) - 1; i >= 0; i-- { // oldest first
-		out = append(out, envOut(fresh[i], true))
+		out = append(out, arEnvOut(fresh[i], true))
 	}
 	return out
 }
@@ -641,7 +641,7 @@ func (a *arRuntime) doReq(st arStep) arStepOut {
 	return out
 }
 
-func runScenario(dir string, idx int, sc arScenario, fwd *fwdService) (res arScenOut) {
+func arRunScenario(dir string, idx int, sc arScenario, fwd *arFwdService) (res arScenOut) {
 	res.Name = sc.Name
 	for k, v := range sc.Env {
 		os.Setenv(k, v)
@@ -732,14 +732,14 @@ func authRun(in []byte) (any, error) {
 	if a.Dir == "" {
 		return nil, errors.New("dir required")
 	}
-	fwd, err := newFwdService()
+	fwd, err := newArFwdService()
 	if err != nil {
 		return nil, err
 	}
 	defer fwd.srv.Close()
 	var out []arScenOut
 	for i, sc := range a.Scenarios {
-		out = append(out, runScenario(a.Dir, i, sc, fwd))
+		out = append(out, arRunScenario(a.Dir, i, sc, fwd))
 	}
 	return out, nil
 }
